@@ -33,11 +33,37 @@ def _collect_atoms(exprs):
     return atoms
 
 
+def _strip_content(n, d):
+    """divide numerator and denominator by their common monomial factor and make the denominator's content 1-ish
+    (cheap partial cancellation: keeps the fractions from blowing up when denominators are monomials)"""
+    if n == 0 or d == 0:
+        return n, d
+    tn, td = list(n.terms()), list(d.terms())
+    k = len(tn[0][0])
+    g = [min(min(m[i] for m, _ in tn), min(m[i] for m, _ in td)) for i in range(k)]
+    if not any(g):
+        return n, d
+    ring = n.ring
+    gm = tuple(g)
+    n2 = ring.from_dict({tuple(a - b for a, b in zip(m, gm)): c for m, c in tn})
+    d2 = ring.from_dict({tuple(a - b for a, b in zip(m, gm)): c for m, c in td})
+    return n2, d2
+
+
 def _to_frac(e, Rg, amap, memo):
-    """sympy expr -> (num, den) ring elements, no gcd (only the numerator matters for identities)"""
+    """sympy expr -> (num, den) ring elements, with common monomial factors cancelled (no polynomial gcd:
+    only the numerator matters for identities)"""
     k = e
     if k in memo:
         return memo[k]
+    r = _to_frac0(e, Rg, amap, memo)
+    r = _strip_content(*r)
+    memo[k] = r
+    return r
+
+
+def _to_frac0(e, Rg, amap, memo):
+    k = e
     if e in amap:
         r = (amap[e], Rg.one)
     elif e.is_Rational:
@@ -72,7 +98,6 @@ def _to_frac(e, Rg, amap, memo):
         raise NFError(f"inexact float {e}")
     else:
         raise NFError(f"unsupported term {type(e).__name__}: {str(e)[:80]}")
-    memo[k] = r
     return r
 
 
@@ -100,7 +125,10 @@ def qq_normal(expr, extra_rel=(), want_den=False):
     atoms = _collect_atoms([expr])
     # closure: relations may introduce new atoms (e.g. cos_ from sin_)
     for _ in range(3):
-        rel = _relations(atoms) + list(extra_rel)
+        extra_leads = {r[0] for r in extra_rel}
+        auto = [r for r in _relations(atoms)
+                if not (r[0].func.__name__ == "sin_" and T.cos_(r[0].args[0]) in extra_leads) and r[0] not in extra_leads]
+        rel = auto + list(extra_rel)
         more = _collect_atoms([r[2] for r in rel] + [r[0] for r in rel])
         if more <= atoms:
             break
@@ -148,10 +176,11 @@ def nf_is_zero(expr, extra_rel=()):
 
 
 # ---------------------------------------------------------------------------------------------
-def poscert(expr, positive, strict=False, extra_rel=()):
+def poscert(expr, positive, strict=False, extra_rel=(), unit=()):
     """certificate for expr >= 0 (> 0 if strict) given every atom in `positive` > 0 and every
     atom of expr is in `positive`: numerator and denominator have only non-negative coefficients
-    (or both only non-positive)."""
+    (or both only non-positive).  Atoms in `unit` are additionally known to lie in (0, 1]: a monomial with a
+    negative coefficient is bounded below by dropping its unit factors (k t u^j >= k t for k < 0)."""
     try:
         n, d, order, amap = qq_normal(expr, extra_rel, want_den=True)
     except NFError:
@@ -162,7 +191,20 @@ def poscert(expr, positive, strict=False, extra_rel=()):
             return False
     if d == 0:
         return False
+    unit_idx = [order.index(a) for a in unit if a in order]
+
+    def lower_bound(p):
+        if not unit_idx:
+            return p
+        acc = {}
+        for mon, c in p.terms():
+            if c < 0:
+                mon = tuple(0 if i in unit_idx else e for i, e in enumerate(mon))
+            acc[mon] = acc.get(mon, 0) + c
+        return p.ring.from_dict({m: c for m, c in acc.items() if c != 0})
+
     def sgn(p):
+        p = lower_bound(p)
         cs = [c for _, c in p.terms()]
         if not cs:
             return 0
